@@ -197,8 +197,15 @@ def field_status(p, variant_fields):
 def idents_used(node):
     """Identifier uses in an expression tree: single-segment paths, struct shorthand fields, and idents inside macro tokens."""
     out = set()
+    discard = set()
+    for n in walk(node):
+        # `let _ = x;` only silences the unused-variable lint: not a use
+        if n.get("k") == "Let" and n["pat"].get("k") == "PWild" and (n.get("init") or {}).get("k") == "Path":
+            discard.add(id(n["init"]))
     for n in walk(node):
         k = n.get("k")
+        if id(n) in discard:
+            continue
         if k == "Path":
             out.add(n["path"].split("::")[0] if "::" not in n["path"] else n["path"])
             if "::" not in n["path"]:
